@@ -42,10 +42,10 @@ Theorem mul_correct sb x y : lowered_mul sb x y = jax_mul sb x y. Proof. reflexi
 
 (* lax.neg: two's-complement negation (INT_MIN stays; unsigned: 2^b - x) *)
 Definition jax_neg (sb : ity) (x : Z) := if x =? 0 then 0 else if is_signed sb then (if x =? int_lo sb then x else - x) else 2 ^ snd sb - x.
-Definition lowered_neg (sb : ity) (x : Z) := o_neg sb x.
-Theorem neg_correct sb x : 0 < snd sb -> in_int sb x -> lowered_neg sb x = jax_neg sb x.
+Definition prerepair_neg (sb : ity) (x : Z) := o_neg sb x.
+Theorem prerepair_neg_correct sb x : 0 < snd sb -> in_int sb x -> prerepair_neg sb x = jax_neg sb x.
 Proof.
-  intros Hb Hx. unfold lowered_neg, o_neg, jax_neg.
+  intros Hb Hx. unfold prerepair_neg, o_neg, jax_neg.
   destruct (x =? 0) eqn:E0; [apply Z.eqb_eq in E0; subst; apply wrap_id; auto|]. apply Z.eqb_neq in E0.
   destruct sb as [sg b]; unfold in_int, int_lo, int_hi, is_signed, wrap in *; simpl in *.
   pose proof (pow2_pos (b - 1) ltac:(lia)). pose proof (pow2_split b Hb).
@@ -56,7 +56,7 @@ Proof.
     + apply Z.eqb_neq in E1. rewrite Z.mod_small by lia. lia.
   - replace (- x) with (2 ^ b - x + (-1) * 2 ^ b) by lia. rewrite Z.mod_add by lia. apply Z.mod_small. lia.
 Qed.
-(* ONNX Neg is not defined on unsigned element types: for them lowered_neg is outside its ONNX domain *)
+(* ONNX Neg is not defined on unsigned element types: for them prerepair_neg is outside its ONNX domain *)
 Definition neg_dom (sb : ity) : Prop := is_signed sb = true.
 Theorem neg_unsigned_outside_onnx_domain sb : is_signed sb = false -> ~ neg_dom sb.
 Proof. unfold neg_dom; intros H1 H2; congruence. Qed.
@@ -305,19 +305,19 @@ Qed.
 (* JAX (XLA): a shift amount >= bit width (compared as unsigned) gives 0 for the logical shifts and the sign
    fill for the arithmetic shift.  ONNX BitShift exists for UNSIGNED element types only. *)
 Definition jax_shift_left (sb : ity) (x s : Z) := if s <? snd sb then wrap sb (x * 2 ^ s) else 0.
-Definition lowered_shift_left (sb : ity) (x s : Z) := o_shl sb x s.
-Theorem shift_left_correct sb x s : 0 <= s -> lowered_shift_left sb x s = jax_shift_left sb x s.
+Definition prerepair_shift_left (sb : ity) (x s : Z) := o_shl sb x s.
+Theorem prerepair_shift_left_correct sb x s : 0 <= s -> prerepair_shift_left sb x s = jax_shift_left sb x s.
 Proof.
-  intro Hs. unfold lowered_shift_left, o_shl, jax_shift_left, bits.
+  intro Hs. unfold prerepair_shift_left, o_shl, jax_shift_left, bits.
   destruct (s <? snd sb); [|reflexivity]. now rewrite Z.shiftl_mul_pow2.
 Qed.
 Definition jax_shift_right_logical (sb : ity) (x s : Z) :=
   if s <? snd sb then wrap sb ((x mod 2 ^ snd sb) / 2 ^ s) else 0.
-Definition lowered_shift_right_logical (sb : ity) (x s : Z) := o_shr sb x s.
-Theorem shift_right_logical_correct sb x s : 0 < snd sb -> shift_dom sb -> in_int sb x -> 0 <= s ->
-  lowered_shift_right_logical sb x s = jax_shift_right_logical sb x s.
+Definition prerepair_shift_right_logical (sb : ity) (x s : Z) := o_shr sb x s.
+Theorem prerepair_shift_right_logical_correct sb x s : 0 < snd sb -> shift_dom sb -> in_int sb x -> 0 <= s ->
+  prerepair_shift_right_logical sb x s = jax_shift_right_logical sb x s.
 Proof.
-  intros Hb Hd Hx Hs. unfold lowered_shift_right_logical, o_shr, jax_shift_right_logical, bits.
+  intros Hb Hd Hx Hs. unfold prerepair_shift_right_logical, o_shr, jax_shift_right_logical, bits.
   destruct (s <? snd sb); [|reflexivity]. rewrite Z.shiftr_div_pow2 by auto.
   destruct sb as [sg b]; unfold shift_dom, in_int, int_lo, int_hi, is_signed in *; cbn [fst snd] in *. subst sg.
   rewrite Z.mod_small by lia. symmetry. apply wrap_id; [exact Hb|].
@@ -333,14 +333,14 @@ Proof. unfold shift_dom; intros H1 H2; congruence. Qed.
 Definition jax_shift_right_arithmetic (sb : ity) (x s : Z) :=
   wrap sb (wrap (true, snd sb) x / 2 ^ Z.min s (snd sb - 1)).
 (* unsigned element types: the plugin emits a LOGICAL BitShift *)
-Definition lowered_sra_unsigned (sb : ity) (x s : Z) := o_shr sb x s.
+Definition prerepair_sra_unsigned (sb : ity) (x s : Z) := o_shr sb x s.
 Theorem sra_unsigned_prerepair_refuted :
-  exists x s, in_int U8 x /\ 0 <= s /\ lowered_sra_unsigned U8 x s <> jax_shift_right_arithmetic U8 x s.
+  exists x s, in_int U8 x /\ 0 <= s /\ prerepair_sra_unsigned U8 x s <> jax_shift_right_arithmetic U8 x s.
 Proof. exists 128, 1. split; [|split]; vm_compute; try discriminate; split; discriminate. Qed.
 Theorem sra_unsigned_prerepair_partial sb x s : 0 < snd sb -> shift_dom sb -> 0 <= x < 2 ^ (snd sb - 1) -> 0 <= s ->
-  lowered_sra_unsigned sb x s = jax_shift_right_arithmetic sb x s.
+  prerepair_sra_unsigned sb x s = jax_shift_right_arithmetic sb x s.
 Proof.
-  intros Hb Hd Hx Hs. unfold lowered_sra_unsigned, o_shr, jax_shift_right_arithmetic, bits.
+  intros Hb Hd Hx Hs. unfold prerepair_sra_unsigned, o_shr, jax_shift_right_arithmetic, bits.
   destruct sb as [sg b]; unfold shift_dom, is_signed in *; cbn [fst snd] in *. subst sg.
   pose proof (pow2_pos (b - 1) ltac:(lia)). pose proof (pow2_split b Hb).
   assert (Hi : in_int (true, b) x) by (unfold in_int, int_lo, int_hi; lia).
@@ -669,10 +669,10 @@ Proof. exact (repaired_round_away_correct q). Qed.
 (* lax.integer_pow: repeated wrapped multiplication *)
 Fixpoint jax_integer_pow (sb : ity) (x : Z) (n : nat) : Z :=
   match n with O => wrap sb 1 | S k => wrap sb (x * jax_integer_pow sb x k) end.
-Definition lowered_integer_pow (sb : ity) (x : Z) (n : nat) := o_pow sb x (Z.of_nat n).
-Theorem integer_pow_correct sb x n : 0 < snd sb -> lowered_integer_pow sb x n = jax_integer_pow sb x n.
+Definition prerepair_integer_pow (sb : ity) (x : Z) (n : nat) := o_pow sb x (Z.of_nat n).
+Theorem prerepair_integer_pow_correct sb x n : 0 < snd sb -> prerepair_integer_pow sb x n = jax_integer_pow sb x n.
 Proof.
-  intro Hb. unfold lowered_integer_pow, o_pow. induction n as [|k IH].
+  intro Hb. unfold prerepair_integer_pow, o_pow. induction n as [|k IH].
   - reflexivity.
   - rewrite Nat2Z.inj_succ, Z.pow_succ_r by lia. simpl. rewrite <- IH, wrap_mul_r by auto. reflexivity.
 Qed.
@@ -824,7 +824,7 @@ Theorem dynamic_slice_correct sb dim size i :
   lowered_dynamic_slice sb dim size i = jax_dynamic_slice sb dim size i.
 Proof. exact (repaired_dynamic_slice_correct sb dim size i). Qed.
 
-(* ================================================================ 12. repairs of the remaining findings (pending patches
+(* ================================================================ 12. repairs of the findings about neg / shifts / integer_pow (committed patches
    .scratch/c01k/fix_neg_unsigned.diff, fix_shift_signed.diff, fix_sra_unsigned.diff, fix_integer_pow.diff): the graphs
    those patches emit, proved correct at full strength; tie S accepts them next to the current lowered_k *)
 Definition utwin (sb : ity) : ity := (false, snd sb).
@@ -833,8 +833,8 @@ Definition utwin (sb : ity) : ity := (false, snd sb).
 Definition repaired_neg (sb : ity) (x : Z) := if is_signed sb then o_neg sb x else o_sub sb 0 x.
 Theorem repaired_neg_correct sb x : 0 < snd sb -> in_int sb x -> repaired_neg sb x = jax_neg sb x.
 Proof.
-  intros Hb Hx. unfold repaired_neg. destruct (is_signed sb); [exact (neg_correct sb x Hb Hx)|].
-  unfold o_sub. rewrite Z.sub_0_l. exact (neg_correct sb x Hb Hx).
+  intros Hb Hx. unfold repaired_neg. destruct (is_signed sb); [exact (prerepair_neg_correct sb x Hb Hx)|].
+  unfold o_sub. rewrite Z.sub_0_l. exact (prerepair_neg_correct sb x Hb Hx).
 Qed.
 
 (* shift_left / shift_right_logical on signed types: Cast to the unsigned twin, BitShift, Cast back *)
@@ -854,7 +854,7 @@ Qed.
 Theorem repaired_shift_left_correct sb x s : 0 < snd sb -> in_int sb s -> 0 <= s ->
   repaired_shift_left sb x s = jax_shift_left sb x s.
 Proof.
-  intros Hb Hi H0. unfold repaired_shift_left. destruct (is_signed sb) eqn:Hs; [|now apply shift_left_correct].
+  intros Hb Hi H0. unfold repaired_shift_left. destruct (is_signed sb) eqn:Hs; [|now apply prerepair_shift_left_correct].
   rewrite (utwin_cast_amount sb s) by auto.
   unfold o_shl, jax_shift_left, bits; cbn [utwin snd].
   destruct (s <? snd sb); [|apply wrap_id; [exact Hb|]].
@@ -876,7 +876,7 @@ Proof.
     + rewrite Z.shiftr_div_pow2 by auto. reflexivity.
     + apply wrap_id; [exact Hb|]. destruct sb as [sg b]; unfold is_signed in Hs; cbn [fst snd] in *; subst sg.
       pose proof (pow2_pos (b - 1) ltac:(lia)). unfold in_int, int_lo, int_hi. lia.
-  - apply shift_right_logical_correct; auto.
+  - apply prerepair_shift_right_logical_correct; auto.
 Qed.
 
 (* lax.integer_pow on integers: repeated Mul (exact wrap) instead of Pow; exponent 0 keeps Pow *)
@@ -887,7 +887,7 @@ Definition repaired_integer_pow (sb : ity) (x : Z) (n : nat) : Z :=
 Theorem repaired_integer_pow_correct sb x n : 0 < snd sb -> in_int sb x ->
   repaired_integer_pow sb x n = jax_integer_pow sb x n.
 Proof.
-  intros Hb Hx. rewrite <- (integer_pow_correct sb x n Hb). unfold lowered_integer_pow, o_pow.
+  intros Hb Hx. rewrite <- (prerepair_integer_pow_correct sb x n Hb). unfold prerepair_integer_pow, o_pow.
   destruct n as [|k]; [reflexivity|]. unfold repaired_integer_pow.
   induction k as [|k IH].
   - simpl mul_chain. change (Z.of_nat 1) with 1. rewrite Z.pow_1_r. symmetry. now apply wrap_id.
@@ -919,7 +919,7 @@ Proof.
   destruct (Z.lt_ge_cases x (2 ^ (b - 1))) as [Hlow | Hhigh].
   - (* top bit clear: the fill vanishes and the logical shift is right *)
     rewrite <- (sra_unsigned_prerepair_partial ub x s Hb eq_refl ltac:(cbn [snd ub]; lia) ltac:(lia)).
-    unfold repaired_sra_unsigned, lowered_sra_unsigned; cbn [snd ub]. cbv zeta.
+    unfold repaired_sra_unsigned, prerepair_sra_unsigned; cbn [snd ub]. cbv zeta.
     rewrite Htop, (Z.div_small x (2 ^ (b - 1))) by lia.
     unfold o_mul at 1. rewrite Z.mul_0_r, (Hub 0) by lia.
     unfold o_bitor. rewrite Z.lor_0_r. unfold o_min, o_shr, bits; cbn [snd ub].
@@ -985,6 +985,32 @@ Proof.
       apply wrap_congr; [exact Hb|]. cbn [snd ub].
       replace (2 ^ b - 1) with (-1 + 1 * 2 ^ b) by lia. apply Z.mod_add. lia.
 Qed.
+
+(* ---------------------------------------------------------------- the lowerings of /repo since f821443 (neg), df7c8d6 (shifts),
+   0f3d227 (arithmetic shift), 48bcbc4 (integer_pow): the repaired graphs above *)
+Definition lowered_neg (sb : ity) (x : Z) := repaired_neg sb x.
+Theorem neg_correct sb x : 0 < snd sb -> in_int sb x -> lowered_neg sb x = jax_neg sb x.
+Proof. exact (repaired_neg_correct sb x). Qed.
+Definition lowered_shift_left (sb : ity) (x s : Z) := repaired_shift_left sb x s.
+Theorem shift_left_correct sb x s : 0 < snd sb -> in_int sb s -> 0 <= s -> lowered_shift_left sb x s = jax_shift_left sb x s.
+Proof. exact (repaired_shift_left_correct sb x s). Qed.
+Definition lowered_shift_right_logical (sb : ity) (x s : Z) := repaired_shift_right_logical sb x s.
+Theorem shift_right_logical_correct sb x s : 0 < snd sb -> in_int sb x -> in_int sb s -> 0 <= s ->
+  lowered_shift_right_logical sb x s = jax_shift_right_logical sb x s.
+Proof. exact (repaired_shift_right_logical_correct sb x s). Qed.
+Definition lowered_sra_unsigned (sb : ity) (x s : Z) := repaired_sra_unsigned sb x s.
+Definition lowered_shift_right_arithmetic (sb : ity) (x s : Z) :=
+  if is_signed sb then lowered_sra_signed sb x s else lowered_sra_unsigned sb x s.
+Theorem shift_right_arithmetic_correct sb x s : 0 < snd sb -> in_int sb x -> in_int sb s -> 0 <= s ->
+  lowered_shift_right_arithmetic sb x s = jax_shift_right_arithmetic sb x s.
+Proof.
+  intros Hb Hx Hs H0. unfold lowered_shift_right_arithmetic. destruct (is_signed sb) eqn:E.
+  - now apply sra_signed_correct.
+  - now apply repaired_sra_unsigned_correct.
+Qed.
+Definition lowered_integer_pow (sb : ity) (x : Z) (n : nat) := repaired_integer_pow sb x n.
+Theorem integer_pow_correct sb x n : 0 < snd sb -> in_int sb x -> lowered_integer_pow sb x n = jax_integer_pow sb x n.
+Proof. exact (repaired_integer_pow_correct sb x n). Qed.
 
 (* ================================================================ non-vacuity *)
 Example nonvacuous_div : in_int I32 (-7) /\ in_int I32 2 /\ div_dom I32 (-7) 2 /\ lowered_div I32 (-7) 2 = -3.
